@@ -184,6 +184,12 @@ def call_builtin(I, name, args, kwargs, env):
                     return args[2]
                 raise
         return I.get_attr(obj, attr)
+    if name == 'setattr':
+        obj, attr, val = args
+        if not isinstance(attr, str):
+            raise Unsupported('setattr with a non-literal name')
+        I.set_attr(obj, attr, val)
+        return None
     if name == 'hasattr':
         from .interp import PyRaise
         try:
